@@ -43,6 +43,8 @@ def histories(cfg, tier):
         s = list(s)
         out.append([("dict", s)])
         out.append([("list", s)])
+        if len(s) == 2:
+            out.append([("list_last_empty", s)])  # the highest index carries no fields at all (a bare event marker)
         if len(s) > 1:
             out.append([("single", [k]) for k in s])
             h = len(s) // 2
@@ -118,8 +120,11 @@ def run_history(args):
                     data = dict(data, added_later=[100 * ncall + i_ for i_ in range(len(ks))], late={"q": "call%d" % ncall})
                     exp = [md.distribute(data, i_, len(ks)) for i_ in range(len(ks))]
                 w.write(ks, data)
-            elif form == "list":
+            elif form in ("list", "list_last_empty"):
                 data, exp = md.list_form(ks)
+                if form == "list_last_empty":
+                    data = list(data[:-1]) + [{}]
+                    exp = data
                 if ncall:
                     data = [dict(v_, added_later=100 * ncall + i_, late={"q": "call%d" % ncall}) for i_, v_ in enumerate(data)]
                     exp = data
@@ -209,6 +214,8 @@ def run_history(args):
                     continue
                 part["evaluations"] += 3
                 exp = model.expected_read(qs, qe)
+                if any("a" not in cmodel[k_] for k_ in exp):
+                    continue  # a sample without these fields is in range: selecting them is not defined by the claim
                 g1 = r.read(qs, qe, columns="a")
                 if [int(k) for k in g1] != exp or any(md.canon_val(v) != cmodel[int(k)]["a"] for k, v in g1.items()):
                     bad({"class": "column_string"}, "read(%d,%d,columns='a') -> %r" % (qs, qe, dict(g1)), query=[qs, qe])
